@@ -1,10 +1,14 @@
 SPECIFICATION Spec
 CONSTANTS
-  MaxPos = 2
-  KwNames = {1, 2, 11, 21}
-  MaxArgs = 3
+  MaxPos = 1
+  KwNames = {1, 11, 21}
+  MaxArgs = 2
   MaxKw = 2
   MaxSteps = 2
+  MaxRebind = 1
+  CtorModeSet = {"distinct", "equal", "boxed"}
+  CallModeSet = {"distinct", "equal", "asbound"}
+  FlagAtSet = {"init", "call"}
   AsCoded = FALSE
   SimK = 0
 CONSTRAINT StepBound
@@ -16,3 +20,5 @@ PROPERTY CallIsPure
 PROPERTY FullBindAgrees
 PROPERTY LateBindAgrees
 PROPERTY ConstructAgrees
+PROPERTY ValuesDoNotMatter
+PROPERTY RebindOrderFree
